@@ -135,6 +135,20 @@ func main() {
 		for _, n := range names {
 			fmt.Println(n)
 		}
+	case "types":
+		// the vocabulary of known named types of a tree (default /repo)
+		repo := "/repo"
+		if len(os.Args) > 2 {
+			repo = os.Args[2]
+		}
+		p, err := loadRaw(repo, BuildConfig{}, nil)
+		if err != nil {
+			fmt.Fprintln(os.Stderr, err)
+			os.Exit(2)
+		}
+		for _, n := range p.typeNames() {
+			fmt.Println(n)
+		}
 	case "describe":
 		// markdown description of every rule set, generated from the registry
 		var ids []string
